@@ -351,6 +351,11 @@ impl LogState {
                                     logs::meta(g.kind(), &relname, Some(g.pid()));
                                 } else if !self.already.contains(&fixname) {
                                     logs::meta("do", &relname, Some(g.pid()));
+                                    // What follows in our own log is ours again, and has
+                                    // to say so, whether or not the other target has
+                                    // anything to show.
+                                    interrupted += 1;
+                                    lines_written += 1;
                                 }
                                 if matches.is_present("recursive") {
                                     if let Some((_, loglock, _)) = info.as_mut() {
